@@ -57,7 +57,7 @@ def tool_cases(draw, name, tier):
         case["params"]["outer"]["fl"] = draw(st.sampled_from(["agen", "aclass"]))
         case["params"]["outer"]["susp"] = 1
     for spec in case["fns"].values():
-        spec["fl"] = draw(st.sampled_from(["async", "obj", "objaw", "gencoro"]))
+        spec["fl"] = draw(st.sampled_from(["async", "obj", "objaw", "gencoro", "classaw"]))
         spec["susp"] = 1
     case["mode"] = draw(st.sampled_from(["hooks", "bare"]))
     return case
